@@ -367,7 +367,11 @@ def pool_layer(on_submit=None, order_name="completion"):
         fs = list(fs)
         order = sym.perm(order_name, len(fs))
         return [fs[i] for i in order]
-    return {_cf.ThreadPoolExecutor: mk_thread, _cf.ProcessPoolExecutor: mk_process, _cf.as_completed: as_completed}
+    # in replay mode the pool model stays in place (plain monkeypatch of concurrent.futures): completion order and
+    # worker assignment are environment inputs recorded in the counterexample, and closures need no pickling
+    return {_cf.ThreadPoolExecutor: mk_thread, _cf.ProcessPoolExecutor: mk_process, _cf.as_completed: as_completed,
+            "__replay__": [(_cf, "ThreadPoolExecutor", mk_thread), (_cf, "ProcessPoolExecutor", mk_process),
+                           (_cf, "as_completed", as_completed)]}
 
 
 # ----------------------------------------------------------------------------------------------------- installer
@@ -434,6 +438,11 @@ class env:
 
     def __enter__(self):
         if sym.MODE != "explore":
+            self._undo = []
+            for layer in self.layers:
+                for (owner, name, repl) in layer.get("__replay__", []):
+                    self._undo.append((owner, name, getattr(owner, name)))
+                    setattr(owner, name, repl)
             return self
         from crosshair.tracers import COMPOSITE_TRACER
         sym.force_reals()
@@ -442,6 +451,7 @@ class env:
         with NoTracing():          # dict operations on the patch table are slow (and pointless) under tracing
             for layer in self.layers:
                 layer = dict(layer)
+                layer.pop("__replay__", None)
                 cy = layer.pop("__cyfunc__", None)
                 _CYFUNC_TABLE.append(cy or {})
                 COMPOSITE_TRACER.patching_module.add(layer)
@@ -450,6 +460,8 @@ class env:
 
     def __exit__(self, *a):
         if sym.MODE != "explore":
+            for owner, name, old in reversed(self._undo):
+                setattr(owner, name, old)
             return False
         from crosshair.tracers import COMPOSITE_TRACER, NoTracing
         with NoTracing():
